@@ -278,6 +278,26 @@ func runC15(c *Ctx, r *Report) {
 		r.Check(good, "C15.R3", ssaFuncName(ef), "EOLEOF returns EOLT in line mode and EOFT otherwise", c.Pos(ef.Pos()), "the end marker does not depend on the lexer mode as documented")
 	}
 	r.Floor("C15.R3", 2)
+
+	// shared C13.R7: a script evaluated whole and the same script fed statement by statement agree only if the
+	// definition sweep over a whole program looks at every statement
+	if !r.Sub {
+		r.Rule("C13.R7", "(shared) the macro-definition sweep over a whole program examines every statement (no index skip after a removal)")
+		sub := NewReport("C13", r.Tier, c)
+		sub.Sub = true
+		c.checkDeleteWhileIterating(sub, "C13.R7", c.SSAFn(c.Fn("eval", "State.DefineMacros")))
+		for _, o := range sub.Obls {
+			switch o.status {
+			case FAIL:
+				r.Fail(o.Rule, o.Func, o.Desc, o.Pos, o.Reason, o.Path...)
+			case ABSTAIN:
+				r.Abstain(o.Rule, o.Func, o.Desc, o.Pos, o.Reason)
+			default:
+				r.Ok(o.Rule, o.Func, o.Desc, o.Pos)
+			}
+		}
+		r.Floor("C13.R7", 1)
+	}
 }
 
 func globalReturned(b *ssa.BasicBlock) string {
